@@ -18,6 +18,9 @@ CORE = ["rbdl_version", "rbdl_mathutils", "rbdl_utils", "rbdl_errors", "Constrai
 VARIANTS = {
     # the library as shipped (asserts off); guard define on
     "quick": ["-O1", "-DNDEBUG", "-DRBDL_RBDL_VERIF", "-std=c++17", "-w"],
+    # ThreadSanitizer build (C20 thorough tier)
+    "tsan": ["-O1", "-DNDEBUG", "-DRBDL_RBDL_VERIF", "-std=c++17", "-w", "-fsanitize=thread", "-g",
+             "-fno-omit-frame-pointer"],
     # asserts on, ASan + UBSan
     "san": ["-O1", "-DRBDL_RBDL_VERIF", "-std=c++17", "-w", "-fsanitize=address,undefined",
             "-fno-sanitize-recover=all", "-fno-omit-frame-pointer"],
@@ -60,7 +63,7 @@ def headers_digest(dirs):
     for d in dirs:
         for root, _, files in sorted(os.walk(d)):
             for f in sorted(files):
-                if f.endswith((".h", ".hpp", ".cmake")):
+                if f.endswith((".h", ".hpp", ".cmake")) or (d.endswith("harness") and f.endswith(".cc")):
                     p = os.path.join(root, f)
                     h.update(p.encode())
                     h.update(open(p, "rb").read())
@@ -110,6 +113,9 @@ def build(variant="quick", target="driver", extra_srcs=(), verbose=False):
             objs.append(obj)
     lh = hashlib.sha256((" ".join(sorted(objs)) + variant).encode()).hexdigest()[:24]
     exe = os.path.join(bindir, "%s_%s_%s" % (target, variant, lh))
+    import json as _json
+    with open(exe + ".objs.json", "w") as _f:
+        _json.dump(dict(zip(srcs, objs)), _f)
     if not os.path.exists(exe):
         libs = []
         if any("luamodel" in s for s in srcs):
@@ -122,7 +128,7 @@ def build(variant="quick", target="driver", extra_srcs=(), verbose=False):
         os.replace(exe + ".tmp", exe)
     # housekeeping: keep the cache bounded
     prune(objdir, 400)
-    prune(bindir, 12)
+    prune(bindir, 40)
     return exe
 
 
